@@ -228,7 +228,7 @@ pub fn run_check(id: &str, tier: Tier) -> i32 {
             }
         }
         "C19" => {
-            ctx.rule("load-and-serve: (1) the manual's examples, the shipped example file (as is and uncommented) and a full-grammar document must load; (2) complete single-substitution family over them (every node replaced by each wrong type / empty collection / boundary number / hostile string, every key replaced or deleted); (3) generated double substitutions; (4) generated byte/token mutations of the texts; every document goes through the real loader, every accepted configuration is used to serve DHCP (DISCOVER/REQUEST on the first host of every configured prefix, with every configured hardware address, all options requested), to build and serialise an RA per interface, and to decide ACLs for IPv4/IPv6/mapped/unix clients; oracle: Ok or Err with text, no panic; non-trivial = rejected by a typed section parser or accepted and served");
+            ctx.rule("load-and-serve: (1) the manual's examples, the shipped example file (as is and uncommented) and a full-grammar document must load; (2) complete single-substitution family over them (every node replaced by each wrong type / empty collection / boundary number / hostile string, every key replaced or deleted, every list also with its first element repeated 31..1000 times); (3) generated double substitutions; (4) generated byte/token mutations of the texts; every document goes through the real loader, every accepted configuration is used to serve DHCP (DISCOVER/REQUEST on the first host of every configured prefix, with every configured hardware address, all options requested), to build and serialise an RA per interface, and to decide ACLs for IPv4/IPv6/mapped/unix clients; oracle: Ok or Err with text, no panic; non-trivial = rejected by a typed section parser or accepted and served");
             ctx.assume("yaml-rust recursion depth: documents nesting deeper than 64 and documents using anchors/aliases are not executed (counted)");
             props_conf::run_c19(&ctx);
             fuzzdrv::run_for(&ctx, "C19");
